@@ -40,7 +40,7 @@ def pOpt {α} (f : String → P α) (s : String) : P (Option α) :=
   if s = "~" then pure none else do pure (some (← f s))
 
 def pList {α} (sep : String) (f : String → P α) (s : String) : P (List α) :=
-  if s.isEmpty then pure [] else (s.splitOn sep).mapM f
+  if s.isEmpty || s = "_" then pure [] else (s.splitOn sep).mapM f
 
 def pArr {α} (f : String → P α) (s : String) : P (Arr α) :=
   match s.splitOn ":" with
